@@ -132,6 +132,10 @@ class Program:
         from . import desugar
         if as_written:
             self.desugar_stats, self.desugarer = {}, None
+            for m in self.mods.values():
+                # one spelling per operation, and a function that only hands its parameters on IS the function it hands them to
+                desugar._thin_wrappers(desugar._Spelling(m.tree).visit(m.tree))
+                ast.fix_missing_locations(m.tree)
         else:
             self.desugar_stats = desugar.desugar({k: m.tree for k, m in self.mods.items()})
             self.desugarer = self.desugar_stats.pop("_desugarer", None)
